@@ -99,7 +99,13 @@ def install(bodies: T.Dict[str, bytes], script: T.Dict[str, T.List[str]], other_
                 dig = hashlib.sha256(f.read()).hexdigest()
         except OSError:
             dig = 'unreadable'
-        log.unpacks.append({'path': p, 'sha256': dig, 'to': str(extract_dir)})
+        who = None
+        try:
+            import sys
+            who = getattr(getattr(sys._getframe(1).f_locals.get('self'), 'wrap', None), 'name', None)     # observation only: whose archive this is
+        except Exception:
+            who = None
+        log.unpacks.append({'path': p, 'sha256': dig, 'to': str(extract_dir), 'wrap': who})
         return real_unpack(filename, extract_dir, *a, **kw)
 
     urllib.request.urlopen = fake_urlopen      # type: ignore[assignment]
